@@ -139,6 +139,10 @@ PROGRAMS = {
                                 M("rewindable", a="T"), M("null"), M("null"), M("close_run")]},
     # a per-call subscription made by the plan: an implicit checkpoint (nothing before it is replayed), answered with the token
     "tmpsub": {"msgs": [M("open_run"), M("checkpoint")] + _point + [M("null"), M("subscribe"), M("null")] + _point + [M("null"), M("close_run")]},
+    # ... removed again by the plan before the second data point / left for the engine, with a run opened after the subscription
+    "tmpsub_un": {"msgs": [M("open_run"), M("checkpoint"), M("subscribe"), M("subscribe")] + _point + [M("null"), M("unsubscribe"), M("null")] + _point
+                          + [M("close_run"), M("unsubscribe"), M("null"), M("open_run"), M("checkpoint")] + _point + [M("close_run")]},
+    "tmpsub_pre": {"msgs": [M("subscribe"), M("null"), M("open_run"), M("checkpoint")] + _point + [M("sleep"), M("null"), M("close_run"), M("null")]},
     "openonly": {"msgs": [M("open_run"), M("checkpoint"), M("sleep"), M("null")]},
     # pauses requested by the plan itself (Msg('pause')): resumable, deferred, and in a non-resumable section with the run left open
     "selfpause": {"msgs": [M("open_run"), M("checkpoint"), M("null"), M("pause", a="F"), M("null"), M("checkpoint"), M("pause", a="T"), M("null"),
@@ -387,9 +391,9 @@ def sweep(plan_names, kinds, decisions, record_intr=True, second=None, extra=Non
 # ---------------------------------------------------------------------------------------------------------------
 COMMON = {"call", "ret", "req", "reqret", "msg", "gen", "dev", "stat"}
 PROJECTIONS = {
-    "full": COMMON | {"state", "doc", "nev"},
+    "full": COMMON | {"state", "doc", "nev", "tdoc"},
     "lifecycle": COMMON | {"state"},
-    "docs": COMMON | {"doc", "nev"},
+    "docs": COMMON | {"doc", "nev", "tdoc"},
     "min": COMMON,
 }
 
@@ -544,7 +548,7 @@ def corpus_spec(tier):
     sweeps = []
     progs = ["simple", "two", "fin", "move", "mon", "multi", "defer", "norew", "paus", "err", "openonly", "mon_then", "nores_open", "nores_rew", "nores_rew_ckpt", "nores_then_ckpt", "unstage_only", "cfg_late", "multi_close", "amove", "aopen", "aselfpause_nores",
              "selfpause", "selfpause_nores", "selfpause_nores_fin", "selfdefer_nores", "norew_save",
-             "fly", "fly_prep", "fly_left", "fly_fin", "fly_twice", "fly_multi", "declare", "declare_mix", "badclean", "npaus", "tmpsub"]
+             "fly", "fly_prep", "fly_left", "fly_fin", "fly_twice", "fly_multi", "declare", "declare_mix", "badclean", "npaus", "tmpsub", "tmpsub_un", "tmpsub_pre"]
     kinds = REQ_KINDS
     if quick:
         sweeps.append(dict(plans=progs, kinds=["pause", "suspend", "abort"], decisions=["resume"], ri=True))
@@ -1146,6 +1150,26 @@ def two_call_scenarios(tier):
                 sc["then"] = [{"plan": prog_plan("simple"), "inject": inj2, "decisions": ["resume", "resume"]}]
                 sc["id"] = "2call:" + sc["id"]
                 out.append(sc)
+    # the first call subscribes a document consumer in-plan and ends in every way; nothing of the second call may reach it (C18)
+    out += tmpsub_then_scenarios(tier)
+    return out
+
+
+def tmpsub_then_scenarios(tier):
+    out = []
+    for plan in ("tmpsub", "tmpsub_un", "tmpsub_pre"):
+        base = base_scenario(plan)
+        n = run_one(base)["points"]
+        firsts = [("plain", [], [])]
+        for p in range(2, n + 1, 4 if tier == "quick" else 1):
+            firsts.append((f"abort@{p}", [{"at": p, "kind": "abort"}], []))
+            firsts.append((f"pause@{p}|stop", [{"at": p, "kind": "pause"}], ["stop"]))
+            firsts.append((f"pause@{p}|resume", [{"at": p, "kind": "pause"}], ["resume"]))
+        for tag, inj, dec in firsts:
+            sc = with_inject(base_scenario(plan), inj, dec, tag + "|then-simple")
+            sc["then"] = [{"plan": prog_plan("simple"), "inject": [{"at": 6, "kind": "pause"}], "decisions": ["resume", "resume"]}]
+            sc["id"] = "2call:" + sc["id"]
+            out.append(sc)
     return out
 
 
